@@ -65,16 +65,20 @@ def generate(seed, tier):
     # (b) 2-D dynamic
     for (M, N) in [(7, 9), (5, 17), (12, 20)] + ([] if quick else [(3, 3), (8, 8), (16, 4)]):
         mn = [(m, n) for m in range(1, M + 1) for n in range(1, N + 1)]
-        for (m, n) in rnd.sample(mn, min(len(mn), 7 if quick else 40)):
+        # the views take a vector branch at run time when the last range is contiguous and a whole number of vectors long: extra cases with such an n
+        vec_n = [(rnd.randrange(1, M + 1), n) for n in (2, 4, 8, 16) if n <= N]
+        for (m, n) in rnd.sample(mn, min(len(mn), 7 if quick else 40)) + (rnd.sample(vec_n, min(2, len(vec_n))) if quick else vec_n):
             tn, tk = ty()
             add('C04|read2d|%s|%dx%d|%dx%d' % (tk, M, N, m, n), 'VP_CASE("@KEY@", vp::c04::read2d<%s,%d,%d,%d,%d>);' % (tn, M, N, m, n))
     for (M, N) in [(3, 5), (8, 9)] + ([] if quick else [(1, 4), (16, 17)]):
         tn, tk = ty()
         add('C04|read2d-int|%s|%dx%d' % (tk, M, N), 'VP_CASE("@KEY@", vp::c04::read2d_int<%s,%d,%d>);' % (tn, M, N))
     # (c) n-D dynamic
-    for dims in [(4, 5, 6), (3, 4, 2, 5), (2, 3, 2, 3, 4), (5, 2, 9)]:
-        for _ in range(3 if quick else 12):
+    for dims in [(4, 5, 6), (3, 4, 2, 5), (2, 3, 2, 3, 4), (5, 2, 9), (3, 4, 16), (2, 3, 33)]:
+        for rep in range(3 if quick else 12):
             ms = [rnd.randrange(1, d + 1) for d in dims]
+            if rep % 3 == 2:
+                ms[-1] = rnd.choice([m for m in (2, 4, 8, 16, 32) if m <= dims[-1]])
             tn, tk = ty()
             add('C04|readnd|%s|%s|%s' % (tk, 'x'.join(map(str, dims)), 'x'.join(map(str, ms))),
                 'static void @FN@(vp::Ctx& c) { vp::c04::ND<%s, Fastor::Index<%s>, Fastor::Index<%s>>::run(c); }\nVP_CASE("@KEY@", @FN@);'
